@@ -42,6 +42,8 @@ Definition truth_ok (c : tcase) (f : N) (es : list ev) : bool :=
   | Some (cd, args) =>
       (match lookup (c_id cd) (tc_truth c), c_func cd with
        | Some (Some fn), Some fn' => N.eqb fn fn'        (* resolved to the function whose code ran *)
+       | Some (Some fn), None => false                   (* a function reachable by name / class / enclosing frame was
+                                                            not resolved: its calls go unlogged *)
        | _, _ => true end)
       && (match lookup f (tc_entries c) with
           | Some ent =>
